@@ -21,8 +21,9 @@ import (
 // timer with a stale value, a latched flag) shows up as a later sleep that returns early. Some
 // goroutines keep the process busy so that timers are serviced promptly.
 //
-// Judged: nil => elapsed >= d (every call); the follow-up sleeps must return nil; the first call may
-// return nil or ctx.Err() (deadline ~ d is exactly the region the other classes stay away from).
+// Judged: nil => elapsed >= d (every call); the follow-up sleeps must return nil; the first call
+// must return ctx.Err() if the context is known to have ended before start + d (stamp taken after
+// cancel() returned, or after a watcher saw <-ctx.Done()), otherwise nil or ctx.Err().
 
 func poolCases(r *vkit.Report) {
 	procs := runtime.GOMAXPROCS(0)
@@ -84,6 +85,11 @@ func timedSleep(ctx context.Context, d time.Duration) (err error, elapsed time.D
 	return err, time.Since(t0), pan
 }
 
+// monoBase turns monotonic stamps into int64 for atomics.
+var monoBase = time.Now()
+
+func monoNow() int64 { return int64(time.Since(monoBase)) }
+
 func poolRound(c *vkit.Case, rnd *vkit.Rand, actor, i int, step time.Duration) (violated bool) {
 	r := c.R
 	d1 := time.Duration(rnd.Range(200, 1000)) * us
@@ -92,17 +98,33 @@ func poolRound(c *vkit.Case, rnd *vkit.Rand, actor, i int, step time.Duration) (
 	var ctx context.Context
 	var release func()
 	shape := ""
+	// ended: monotonic stamp taken after the context is known to have ended (0 = not yet)
+	var ended atomic.Int64
 	switch mode {
 	case 0, 1:
 		cctx, cancel := context.WithCancel(context.Background())
-		tm := time.AfterFunc(d1+delta, cancel)
+		tm := time.AfterFunc(d1+delta, func() {
+			cancel()
+			ended.CompareAndSwap(0, monoNow())
+		})
 		ctx, release, shape = cctx, func() { tm.Stop(); cancel() }, "WithCancel, cancelled by time.AfterFunc(d+delta)"
 	default:
 		p, cancel := context.WithTimeout(context.Background(), d1+delta)
+		go func() {
+			<-p.Done()
+			ended.CompareAndSwap(0, monoNow())
+		}()
 		ctx, release, shape = hideDeadline{p}, cancel, "deadline-hiding wrapper(WithTimeout(d+delta))"
 	}
+	start := monoNow() // before the call
 	err1, el1, pan1 := timedSleep(ctx, d1)
+	// A stamp that is not there yet belongs to an end that became known after the call returned.
+	endedAt := ended.Load()
 	release()
+	endedFirst := endedAt != 0 && time.Duration(endedAt-start) < d1
+	if endedFirst {
+		r.Count("pool", "first calls whose context is known to have ended before start + d (ctx.Err() demanded)", 1)
+	}
 	type call struct {
 		D       string `json:"d"`
 		Ctx     string `json:"context"`
@@ -128,6 +150,10 @@ func poolRound(c *vkit.Case, rnd *vkit.Rand, actor, i int, step time.Duration) (
 		r.Count("sleep", "nil result, elapsed >= d checked", 1)
 		if el1 < d1 {
 			return bad("nil-before-d", fmt.Sprintf("SleepContext(%s delta=%s, %s) returned nil after %s, less than d", shape, delta, d1, el1))
+		}
+		if endedFirst {
+			return bad("nil-although-context-ended-first", fmt.Sprintf("SleepContext(%s delta=%s, %s) returned nil after %s although its context was known to have ended %s after a stamp taken before the call, i.e. before d had elapsed",
+				shape, delta, d1, el1, time.Duration(endedAt-start)))
 		}
 	case (errors.Is(err1, context.Canceled) || errors.Is(err1, context.DeadlineExceeded)) && !isCause(err1):
 		r.Count("pool: first call, context ending at d+delta", fmt.Sprintf("delta %s: ctx.Err()", deltaBucket(delta)), 1)
